@@ -31,6 +31,109 @@ def exact_cell(nrows, ncols, xll, yll, csz, x, y):
     return (nrows - 1 - fy) * ncols + fx, margin
 
 
+_BAND = Fr(4, 10 ** 16)
+
+
+def outside_decisive(nrows, ncols, xll, yll, csz, x, y):
+    """The property: -1 for EVERY point outside the extent, "from just outside".  A point is outside when it is
+    outside in exact arithmetic on the binary64 values held (half-open extent: x < xll or x >= xll + ncols*csz,
+    same in y).  It is judged as soon as, on one axis at least, its exact distance to the extent (cell units)
+    exceeds what ANY binary64 evaluation of the offset can err by - 4e-16 x the largest magnitude involved on that
+    axis (|origin|, |coordinate|, extent; cell units), i.e. <= 4e-12 cell in the property's quantifier.  No other
+    band is excluded on the outside (the 1e-9 of the property's text qualifies the points INSIDE a footprint)."""
+    c = Fr(csz)
+    for p, o, n in ((x, xll, ncols), (y, yll, nrows)):
+        fp, fo = Fr(p), Fr(o)
+        q = (fp - fo) / c
+        d = max(-q, q - n)
+        if d > _BAND * (max(abs(fp), abs(fo)) / c + n):
+            return True
+    return False
+
+
+def _step(v, k):
+    """The k-th binary64 number after v (k > 0: towards +inf, k < 0: towards -inf)."""
+    import struct
+    i = struct.unpack("<q", struct.pack("<d", v))[0]
+    if i < 0:
+        i = -(i & 0x7fffffffffffffff)
+    i += k
+    bits = i if i >= 0 else ((-i) | (1 << 63))
+    return struct.unpack("<d", struct.pack("<Q", bits))[0]
+
+
+def edge_neighbour(o, csz, n, side, k):
+    """The k-th binary64 number outside the extent [o, o + n*csz) beyond its lower (side < 0) or upper (side > 0)
+    edge, the edge being taken in exact arithmetic (k = 1 on the upper side may be the edge itself: half-open)."""
+    if side < 0:
+        return _step(o, -k)
+    e = Fr(o) + n * Fr(csz)
+    v = float(e)
+    if Fr(v) < e:
+        v = _step(v, 1)
+    return _step(v, k - 1)
+
+
+def inner_neighbour(o, csz, n, side, k):
+    """The k-th binary64 number inside the extent next to its lower / upper edge (exact arithmetic)."""
+    if side < 0:
+        return _step(o, k - 1)          # the lower edge itself belongs to the extent
+    e = Fr(o) + n * Fr(csz)
+    v = float(e)
+    if Fr(v) >= e:
+        v = _step(v, -1)
+    return _step(v, -(k - 1))
+
+
+# distances to the extent, cell units ("from just outside to far away")
+OUT_DISTS = [1e-15, 1e-14, 1e-13, 1e-12, 1e-11, 1e-10, 1e-9, 2e-9, 1e-8, 1e-7, 1e-6, 1e-5, 1e-4, 1e-3, 0.01, 0.3,
+             0.5, 0.999, 1.0, 1.5, 7.0, 1e3, 1e6, 1e9, 1e12]
+# depth inside the border cells, cell units (the quantifier: >= 1e-9 from the edges)
+IN_DISTS = [2e-9, 1e-8, 1e-7, 1e-6, 1e-4, 0.01, 0.5]
+# binary64 neighbours of the exact edges
+ULPS = [1, 2, 3, 4, 7, 64, 1000, 10 ** 6, 10 ** 9]
+# far away, at the distances where a narrower integer type or the 53-bit mantissa would wrap / saturate
+FAR = [2.0 ** 31, 2.0 ** 32, 2.0 ** 33, 2.0 ** 52, 2.0 ** 53, 2.0 ** 63, 2.0 ** 64, 2.0 ** 70]
+DIRS = [(-1, 0), (1, 0), (0, -1), (0, 1), (-1, -1), (-1, 1), (1, -1), (1, 1)]
+
+
+def border_points(rng, G, keep=1.0):
+    """The extent's border seen from both sides, on the four sides and the four diagonals: points outside at every
+    distance of OUT_DISTS, the binary64 neighbours of the exact edges (ULPS), far points (FAR), and the mirrored
+    points just inside the border cells (IN_DISTS, and ULPS from 64 on when that is >= 1e-9 cell deep - the oracle
+    decides).  keep < 1: a random subset."""
+    nrows, ncols, xll, yll, csz = G
+
+    def along(n):
+        # position along a side, cell units: in the first / last cell, near a corner, anywhere
+        return rng.choice([0.5, n - 0.5, 2e-9, n - 2e-9, rng.random() * n])
+
+    pts = []
+    for sx, sy in DIRS:
+        for kind, vals in (("out", OUT_DISTS), ("in", IN_DISTS), ("ulp", ULPS), ("ulp-in", ULPS[5:]), ("far", FAR)):
+            for d in vals:
+                if rng.random() >= keep:
+                    continue
+                u, v = along(ncols), along(nrows)
+                if kind == "out":
+                    px = xll + csz * (-d if sx < 0 else ncols + d if sx > 0 else u)
+                    py = yll + csz * (-d if sy < 0 else nrows + d if sy > 0 else v)
+                elif kind == "in":
+                    px = xll + csz * (d if sx < 0 else ncols - d if sx > 0 else u)
+                    py = yll + csz * (d if sy < 0 else nrows - d if sy > 0 else v)
+                elif kind == "ulp":
+                    px = edge_neighbour(xll, csz, ncols, sx, d) if sx else xll + csz * u
+                    py = edge_neighbour(yll, csz, nrows, sy, d) if sy else yll + csz * v
+                elif kind == "ulp-in":
+                    px = inner_neighbour(xll, csz, ncols, sx, d) if sx else xll + csz * u
+                    py = inner_neighbour(yll, csz, nrows, sy, d) if sy else yll + csz * v
+                else:
+                    px = xll + csz * (u + sx * d)
+                    py = yll + csz * (v + sy * d)
+                pts.append((px, py))
+    return pts
+
+
 # ----------------------------------------------------------------------------
 # Stored representations of the arguments (the quantifier's "all valid and invalid cell
 # numbers", "points"): the same number / point handed over as a Python scalar, a numpy scalar
@@ -151,15 +254,25 @@ def draw_points(rng, G, nin, nout, special=True):
     pts = []
     for _k in range(nin):  # inside footprints
         r, c = rng.randrange(nrows), rng.randrange(ncols)
-        u = rng.choice([1e-9, 1e-6, 0.5, rng.random(), 1 - 1e-9, 1 - 1e-6])
-        v = rng.choice([1e-9, 1e-6, 0.5, rng.random(), 1 - 1e-9, 1 - 1e-6])
+        u = rng.choice([1e-9, 2e-9, 1e-8, 1e-6, 0.5, rng.random(), 1 - 1e-9, 1 - 2e-9, 1 - 1e-8, 1 - 1e-6])
+        v = rng.choice([1e-9, 2e-9, 1e-8, 1e-6, 0.5, rng.random(), 1 - 1e-9, 1 - 2e-9, 1 - 1e-8, 1 - 1e-6])
         pts.append((xll + csz * (c + u), yll + csz * (nrows - 1 - r + v)))
-    for _k in range(nout):  # outside, eight directions
-        d = rng.choice([1e-9, 1e-6, 1e-3, 0.3, 0.5, 0.999, 1.0, 1.5, 7.0, 1e3, 1e6])
-        sx, sy = rng.choice([(-1, 0), (1, 0), (0, -1), (0, 1), (-1, -1), (-1, 1), (1, -1), (1, 1)])
-        u, v = rng.random() * ncols, rng.random() * nrows
-        px = xll + csz * (-d if sx < 0 else ncols + d if sx > 0 else u)
-        py = yll + csz * (-d if sy < 0 else nrows + d if sy > 0 else v)
+    for _k in range(nout):  # outside, eight directions, from the binary64 neighbours of the edges to far away
+        sx, sy = rng.choice(DIRS)
+        u = rng.choice([0.5, ncols - 0.5, rng.random() * ncols, rng.random() * ncols])
+        v = rng.choice([0.5, nrows - 0.5, rng.random() * nrows, rng.random() * nrows])
+        how = rng.random()
+        if how < 0.15:
+            k = rng.choice(ULPS)
+            px = edge_neighbour(xll, csz, ncols, sx, k) if sx else xll + csz * u
+            py = edge_neighbour(yll, csz, nrows, sy, k) if sy else yll + csz * v
+        elif how < 0.22:
+            d = rng.choice(FAR)
+            px, py = xll + csz * (u + sx * d), yll + csz * (v + sy * d)
+        else:
+            d = rng.choice(OUT_DISTS + [10 ** rng.uniform(-13, -8), 10 ** rng.uniform(-8, 0)])
+            px = xll + csz * (-d if sx < 0 else ncols + d if sx > 0 else u)
+            py = yll + csz * (-d if sy < 0 else nrows + d if sy > 0 else v)
         pts.append((px, py))
     if special:
         pts += [(float("nan"), yll), (xll + csz / 2, float("inf")), (-float("inf"), yll + csz / 2),
@@ -367,14 +480,22 @@ class Obs:
         for (x, y), cell in zip(pts, got):
             x, y = float(x), float(y)
             want, margin = exact_cell(nrows, ncols, xll, yll, csz, x, y)
+            if margin is None:
+                safe = True
+            elif want < 0:
+                # outside in exact arithmetic: judged down to the rounding of binary64 (no 1e-9 band here)
+                safe = outside_decisive(nrows, ncols, xll, yll, csz, x, y)
+            else:
+                # inside a footprint: the property's quantifier keeps 1e-9 (relative to the cell) from the edges
+                scale = max(abs(xll), abs(yll), abs(x), abs(y)) / csz
+                safe = margin > 1e-9 + 4e-16 * scale
             cls = ("nonfinite" if margin is None else "outside" if want < 0 else "inside",
-                   None if margin is None else margin < 1e-5, nrows == 1, ncols == 1, rep, bool(extra))
+                   None if margin is None else "1e-9" if margin < 1.5e-9 else "1e-5" if margin < 1e-5 else
+                   "1" if margin <= 1 else "1e6" if margin <= 1e6 else "far", safe,
+                   nrows == 1, ncols == 1, rep, bool(extra))
             i = self.add(f"GCoord2cell {head} {cm.coq_float(x)} {cm.coq_float(y)} {cm.coq_z(cell)}",
                          dict(geom, call="coord2cell", point=[x, y], representation=rep, impl=cell, exact=want,
                               **extra), ("p2c",) + cls)
-            scale = max(abs(xll), abs(yll), abs(x) if math.isfinite(x) else 0,
-                        abs(y) if math.isfinite(y) else 0) / csz
-            safe = margin is None or margin > 1e-9 + 4e-16 * scale
             if safe and cell != want:
                 side = "outside-maps-to-cell" if want < 0 else "inside-wrong-cell"
                 as_rep = "" if rep == "float64 array" else f" given as {rep}"
@@ -603,7 +724,12 @@ def run(ctx):
                 "(exhaustive; cell2rowcol / cell2coord also with the number as a scalar of every integer type in turn); "
                 "coordinates: random shapes up to 40x40, cell sizes 1e-4..1e4, origins up to 1e4 "
                 "cells from zero, points inside every sampled footprint (>=1e-9 from edges), on 8 outside "
-                "directions from 1e-9 to 1e6 cells away, NaN/inf; stored representations: cell numbers (valid, "
+                "directions from the binary64 neighbours of the exact edges (1, 2, 3, ... 1e9 ulps), 1e-15 .. 1e12 "
+                "cells and 2^31 .. 2^70 cells away, NaN/inf - an outside point (exact arithmetic on the binary64 values "
+                "held) is judged as soon as it is farther out than 4e-16 x the magnitudes involved, no 1e-9 band on "
+                "the outside; border sweep: every cell size decade 1e-4..1e4 (+ 0.05, 0.025, 1/3, ...) x 1x1 / 1-row "
+                "/ 1-column / general shapes x origins 0..1e4 cells x 4 sides + 4 diagonals x those distances, and the "
+                "mirrored points 2e-9 .. 0.5 cell inside the border cells; stored representations: cell numbers (valid, "
                 "invalid, +-2^31, +-2^40, int64 limits) as Python int, numpy scalar of every integer type, 0-d array, "
                 "list, tuple, arrays of every integer type / byte order / stride / read-only / object, points as "
                 "nested lists, tuples, Fortran / strided / transposed / big-endian / float32 / longdouble / object "
@@ -615,6 +741,11 @@ def run(ctx):
     ctx.trusted = cm.STD_TRUST + ["x86-64 cvttsd2si semantics for out-of-range casts (model returns -1)"]
     ctx.tested_not_proved = ["binary64 rounding never moves a point across a cell edge when it is 1e-9 "
                              "(relative) away from it - tested with an exact rational oracle",
+                             "a point outside the extent in exact arithmetic on the binary64 values held gets -1 as "
+                             "soon as it is farther out than 4e-16 x (|origin|, |coordinate|, extent; cell units) - "
+                             "tested with the exact rational oracle from the binary64 neighbours of the edges to 2^70 "
+                             "cells (not judged: points closer than that rounding bound, e.g. on the right / top "
+                             "edge itself or a subnormal distance left of a zero origin)",
                              "the Python wrappers hand the object's present geometry and the numbers / points, "
                              "whatever their stored representation, unchanged to the kernels - tested on "
                              "representations and object histories"]
@@ -622,6 +753,8 @@ def run(ctx):
     cm.use_impl()
     rng = ctx.rng
     obs = Obs(ctx)
+    import time
+    t0 = time.time()
 
     # ---- integer operations, exhaustive on small shapes
     S = ctx.scale(5, 8)
@@ -692,6 +825,28 @@ def run(ctx):
         x, y = rng.choice(pts[:26])
         obs.coord2cell(g, G, mk(x, y), [(x, y)], name, core)
 
+    # ---- the border of the extent, from both sides: every cell size decade of the quantifier (and the sizes a
+    # tolerance in coordinate units / in cell units / relative to the coordinates would single out) x 1-row, 1-column,
+    # 1x1 and general shapes x origins from 0 to 1e4 cells x four sides and four diagonals x distances from the
+    # binary64 neighbours of the exact edges to 2^70 cells
+    sizes = [1e-4, 1e-3, 1e-2, 0.1, 1.0, 10.0, 1e2, 1e3, 1e4, 0.05, 0.025, 0.5, 2.0, 1 / 3, 3e-4,
+             10 ** rng.uniform(-4, 0), 10 ** rng.uniform(0, 4)]
+    njudged0 = len(obs.terms)
+    for csz in sizes:
+        for _ in range(ctx.scale(1, 5)):
+            nrows, ncols = rng.choice([(1, 1), (1, rng.randint(2, 40)), (rng.randint(2, 40), 1), (2, 3),
+                                       (rng.randint(2, 40), rng.randint(2, 40))])
+            off = rng.choice([0, 1, 1e2, 1e4])
+            xll = rng.choice([0.0, rng.uniform(-1, 1) * off * csz, float(round(rng.uniform(-1, 1) * off)) * csz,
+                              rng.choice([-1, 1]) * off * csz])
+            yll = rng.choice([0.0, rng.uniform(-1, 1) * off * csz, -off * csz, (off - nrows) * csz])
+            g = mkgrid(nrows, ncols, xll, yll, csz)
+            G = live_geometry(g)
+            cm.mark({"grid": list(G), "calls": "coord2cell, border of the extent from both sides"})
+            pts = border_points(rng, G, ctx.scale(0.45, 1.0))
+            obs.coord2cell(g, G, np.array(pts), pts)
+    ctx.notes["border_sweep_points"] = len(obs.terms) - njudged0
+
     # ---- object histories
     nhist = ctx.scale(16, 120)
     nsteps_run = 0
@@ -704,7 +859,10 @@ def run(ctx):
         ctx.notes["representations_refused"] = {f"{k[0]}: {k[1]}": v for k, v in sorted(obs.unsupported.items())}
 
     terms, replays, orc_fail = obs.terms, obs.replays, obs.orc_fail
+    ctx.notes["generate_and_oracle_s"] = round(time.time() - t0, 1)
+    t0 = time.time()
     bad, nshards, failed = cm.run_case_files(PID, HEADER, "gcase", "g_ok", terms, shard=1500)
+    ctx.notes["correspondence_s"] = round(time.time() - t0, 1)
     ctx.notes["correspondence_cases"] = len(terms)
     ctx.notes["correspondence_mismatches"] = len(bad)
     for k in range(nshards):
